@@ -62,7 +62,7 @@ def thrownOf (input : List String) : List String :=
     | [] => []
   go ts
 
-def alwaysFields : List String := ["sp", "csp", "cg", "ctx"]
+def alwaysFields : List String := ["sp", "csp", "cg", "ctx", "ld", "rd"]
 def otherFields : List String := ["co", "po", "prog", "ct", "fp", "pc", "fio", "vio"]
 
 def machinePart (probe : String) : String := (splitOnStr probe " side ").headD ""
@@ -135,6 +135,8 @@ structure Obs where
   pc : Nat
   fio : Nat
   vio : Nat
+  ld : Int       -- num_objects_this_thread
+  rd : Nat       -- restrict_destruct
   deriving DecidableEq, Repr
 
 /-- one driver-level evaluation as observed: snapshot before, snapshot after, did it fail, did the driver crash -/
@@ -146,7 +148,8 @@ structure TopObs where
   deriving Repr
 
 /-- the register clauses of the oracle on one observed evaluation: no crash; sp, csp, chain depth and every register
-    restored from the frame as before; command_giver as before when the evaluation failed (a completed evaluation
+    restored from the frame as before; both guards (load depth, destruct restriction) as before;
+    command_giver as before when the evaluation failed (a completed evaluation
     may keep a command_giver it set itself) -/
 def judgeObs (o : TopObs) : List String :=
   (if o.crashed then ["crash"] else []) ++
@@ -161,7 +164,9 @@ def judgeObs (o : TopObs) : List String :=
   (if o.after.fp != o.before.fp then ["restore fp"] else []) ++
   (if o.after.pc != o.before.pc then ["restore pc"] else []) ++
   (if o.after.fio != o.before.fio then ["restore fio"] else []) ++
-  (if o.after.vio != o.before.vio then ["restore vio"] else [])
+  (if o.after.vio != o.before.vio then ["restore vio"] else []) ++
+  (if o.after.ld != o.before.ld then ["guard load-depth"] else []) ++
+  (if o.after.rd != o.before.rd then ["guard restrict-destruct"] else [])
 
 /-- the oracle: `input` are the case lines, `impl` the canonical trace -/
 def judge (input impl : List String) : List String :=
